@@ -35,6 +35,13 @@ func init() {
 		vxPath + ".Param":     extVxParam,
 		vxPath + ".ParamInt":  extVxParamInt,
 		vxPath + ".MapOrders": extVxMapOrders,
+		vxPath + ".PoolReuse": func(fr *frame, args []value) value {
+			fr.i.ex.PoolReuse = args[0].(bool)
+			if !fr.i.ex.PoolReuse {
+				fr.i.pools = map[*value][]value{}
+			}
+			return nil
+		},
 		vxPath + ".Symbolic":  func(fr *frame, args []value) value { return true },
 		vxPath + ".Ite":       extVxIte,
 		vxPath + ".And":       func(fr *frame, args []value) value { return boolVal(tAnd(toTerm(args[0]), toTerm(args[1]))) },
@@ -53,7 +60,7 @@ func init() {
 		"(*sync.RWMutex).RLock":            extNop,
 		"(*sync.RWMutex).RUnlock":          extNop,
 		"(*sync.Pool).Get":                 extPoolGet,
-		"(*sync.Pool).Put":                 extNop,
+		"(*sync.Pool).Put":                 extPoolPut,
 		"sync/atomic.LoadInt32":            extAtomicLoad,
 		"sync/atomic.LoadUint32":           extAtomicLoad,
 		"sync/atomic.LoadInt64":            extAtomicLoad,
@@ -404,7 +411,23 @@ func extUnlock(fr *frame, args []value) value {
 	return nil
 }
 
+func extPoolPut(fr *frame, args []value) value {
+	if fr.i.ex != nil && fr.i.ex.PoolReuse {
+		p := args[0].(*value)
+		fr.i.pools[p] = append(fr.i.pools[p], args[1])
+	}
+	return nil
+}
+
 func extPoolGet(fr *frame, args []value) value {
+	if fr.i.ex != nil && fr.i.ex.PoolReuse {
+		p := args[0].(*value)
+		if st := fr.i.pools[p]; len(st) > 0 {
+			v := st[len(st)-1]
+			fr.i.pools[p] = st[:len(st)-1]
+			return v
+		}
+	}
 	pool := (*args[0].(*value)).(structure)
 	newFn := pool[len(pool)-1]
 	switch f := newFn.(type) {
